@@ -53,7 +53,9 @@ type hwCaseC struct {
 	Opts     []hwHV `json:"opts"`
 	Body     string `json:"body"`
 	TName    bool   `json:"tname"`   // the gun's target is given by name (localhost:port)
-	Gun      string `json:"gun"`     // "" (http gun) | "connect"
+	Preload  *bool  `json:"preload"` // request-target cases: how the provider reads the file (absent: rotates with the case id)
+	Gun      string `json:"gun"`     // "" (http gun) | "connect" | "http2"
+	H2       *bool  `json:"h2"`      // the (TLS) target offers HTTP/2 next to HTTP/1.1 (absent: an HTTP/1.1-only target)
 	CSSL     bool   `json:"cssl"`    // connect gun: option connect-ssl
 	CStatus  int    `json:"cstatus"` // connect gun: what the proxy answers to CONNECT
 	MW       *struct {
@@ -81,6 +83,7 @@ type hwObs struct {
 	Host   string           `json:"host"`
 	Hdr    []targets.Header `json:"hdr"`
 	Body   string           `json:"body"`
+	Proto  string           `json:"proto"` // protocol version the request arrived in ("HTTP/1.1", "HTTP/2.0"; "" if none arrived)
 	SNI    string           `json:"sni"` // TLS server name of the connection, projected ("" none, TARGETHOST = the target's name)
 	// CONNECTs the proxy targets saw while the case ran
 	Connects []hwConnect `json:"connects"`
@@ -104,6 +107,7 @@ type hwOut struct {
 	Samples []hwSample      `json:"samples"`
 	Acq     int             `json:"acq"`  // ammo the provider handed out for this file
 	Err     string          `json:"err"`  // provider / decoding error text, "" if none
+	Panic   string          `json:"panic"` // what Shoot panicked with, "" if it returned
 	T0      int             `json:"t0"`   // clock (unix seconds) read before the ammo was acquired ...
 	T1      int             `json:"t1"`   // ... and after the shot returned
 	Answ    int             `json:"answ"` // records the gun's answer log gained during the case (0 without answlog)
@@ -120,6 +124,8 @@ type hwEnv struct {
 	tls        *targets.HTTPTarget
 	decoy      *targets.HTTPTarget
 	decoyTLS   *targets.HTTPTarget
+	h2         *targets.HTTPTarget // TLS target offering h2 and http/1.1
+	h2on       bool                // the case being observed runs against the h2-capable target
 	log        *zap.Logger
 	fs         afero.Fs
 	guns       map[string]core.Gun
@@ -139,7 +145,8 @@ func hwNewEnv() *hwEnv {
 	e.tls = targets.NewHTTP("target", true, rec)
 	e.decoy = targets.NewHTTP("decoy", false, rec)
 	e.decoyTLS = targets.NewHTTP("decoy", true, rec)
-	for _, t := range []*targets.HTTPTarget{e.plain, e.tls, e.decoy, e.decoyTLS} {
+	e.h2 = targets.NewHTTP2("target", rec)
+	for _, t := range []*targets.HTTPTarget{e.plain, e.tls, e.decoy, e.decoyTLS, e.h2} {
 		if !targets.IsLoopback(t.Addr()) {
 			panic("target not on loopback: " + t.Addr())
 		}
@@ -185,12 +192,16 @@ func (e *hwEnv) close() {
 		p.Close()
 	}
 	e.plain.Close()
+	e.h2.Close()
 	e.tls.Close()
 	e.decoy.Close()
 	e.decoyTLS.Close()
 }
 
 func (e *hwEnv) target(ssl bool) *targets.HTTPTarget {
+	if ssl && e.h2on {
+		return e.h2
+	}
 	if ssl {
 		return e.tls
 	}
@@ -361,7 +372,11 @@ func (e *hwEnv) runCase(cs hwCase) hwOut {
 			out.Via += " uris-inline"
 		}
 	}
-	if (cs.ID/6)%2 == 1 {
+	preload := (cs.ID/6)%2 == 1
+	if c.Preload != nil {
+		preload = *c.Preload
+	}
+	if preload {
 		pm["preload"] = true
 		out.Via += " preload"
 	}
@@ -392,7 +407,15 @@ func (e *hwEnv) runCase(cs hwCase) hwOut {
 	}
 	var g core.Gun
 	gunTarget := ""
-	if c.Gun == "connect" {
+	e.h2on = c.H2 != nil && *c.H2
+	if c.Gun == "http2" {
+		// the http2 gun against the target of the case (h2-capable or HTTP/1.1 only); it has no `ssl: false`
+		g, err = e.gun(true, c.Compress, map[string]interface{}{"type": "http2"}, fmt.Sprintf("http2/%v", e.h2on), yamlShape)
+		out.Via += " gun=http2"
+	} else if e.h2on {
+		g, err = e.gun(c.SSL, c.Compress, nil, "h2target", yamlShape)
+		out.Via += " target-offers-h2"
+	} else if c.Gun == "connect" {
 		// the connect gun's target is the proxy; the tunnel leads to the recording target of the case's scheme
 		px := e.proxy(c.CSSL, c.SSL, c.CStatus)
 		gunTarget = px.Addr()
@@ -442,7 +465,7 @@ func (e *hwEnv) runCase(cs hwCase) hwOut {
 		func() {
 			defer func() { // "a failed sample, not a crash"
 				if r := recover(); r != nil {
-					out.Err = fmt.Sprintf("gun panicked: %v", r)
+					out.Panic = fmt.Sprintf("%v", r)
 				}
 			}()
 			g.Shoot(a)
@@ -497,6 +520,7 @@ func (e *hwEnv) observe(out *hwOut, ssl bool) {
 			out.Obs.SNI = e.projectHost(ev.SNI, ssl)
 		}
 		out.Obs.Body = ev.Body
+		out.Obs.Proto = ev.Proto
 		out.Obs.Hdr = ev.Hdr
 		if out.Obs.Hdr == nil {
 			out.Obs.Hdr = []targets.Header{}
@@ -606,6 +630,7 @@ func (e *hwEnv) runReuse(cs hwCase) []hwOut {
 	if err := json.Unmarshal(cs.C, &c); err != nil {
 		panic(err)
 	}
+	e.h2on = false
 	yamlShape := cs.ID%2 == 1
 	via := fmt.Sprintf("%s instances=%d rounds=%d acquire-all-then-shoot-all", map[bool]string{false: "viper-map", true: "yaml-map"}[yamlShape], c.N, c.Rounds)
 	typ, file := e.hwRenderFile(&c)
@@ -699,6 +724,7 @@ func (e *hwEnv) runReuse(cs hwCase) []hwOut {
 		o.Obs.Host = e.projectHost(ev.Host, c.SSL)
 		o.Obs.SNI = ev.SNI
 		o.Obs.Body = ev.Body
+		o.Obs.Proto = ev.Proto
 		if ev.Hdr != nil {
 			o.Obs.Hdr = ev.Hdr
 		}
@@ -730,6 +756,7 @@ func (e *hwEnv) runFile(cs hwCase) []hwOut {
 	if err := json.Unmarshal(cs.C, &c); err != nil {
 		panic(err)
 	}
+	e.h2on = false
 	yamlShape := cs.ID%2 == 1
 	via := map[bool]string{false: "viper-map", true: "yaml-map"}[yamlShape]
 	typ, file := e.hwRenderFile(&c)
@@ -926,6 +953,17 @@ type hwConnRun struct {
 	cssl    bool          // ... option connect-ssl
 	shared  int           // shared-client.client-number (0: per-instance clients)
 	serial  bool          // the instances take turns: at most one exchange in flight
+	http2   bool          // http2 gun against a target that offers h2 (always TLS)
+}
+
+func (cr hwConnRun) gunName() string {
+	if cr.connect {
+		return "connect"
+	}
+	if cr.http2 {
+		return "http2"
+	}
+	return "http"
 }
 
 // hwSink receives the log lines of a connection run (the output file, or a buffer when runs execute in parallel).
@@ -1023,6 +1061,13 @@ func hwConnMore(w hwSink, run int) int {
 	}
 	run++
 	hwConnOne(w, run, hwConnRun{ssl: false, ka: true, n: 3, r: 3, shared: 2, serial: true, connect: true})
+	// http2 gun: an instance multiplexes its (sequential) requests over its one h2 connection; shared clients too
+	for n := 1; n <= 3; n++ {
+		run++
+		hwConnOne(w, run, hwConnRun{ssl: true, ka: true, n: n, r: 3 + (seed+run)%3, http2: true})
+	}
+	run++
+	hwConnOne(w, run, hwConnRun{ssl: true, ka: true, n: 3, r: 3, shared: 2, serial: true, http2: true})
 	return run
 }
 
@@ -1035,6 +1080,10 @@ func hwConnOne(w hwSink, run int, cr hwConnRun) {
 			{
 				rec := &targets.Recorder{}
 				tgt := targets.NewHTTP("target", ssl, rec)
+				if cr.http2 {
+					tgt.Close()
+					tgt = targets.NewHTTP2("target", rec)
+				}
 				// one uri ammo file with n*r distinct URIs
 				var b strings.Builder
 				for k := 0; k < n*r; k++ {
@@ -1054,6 +1103,9 @@ func hwConnOne(w hwSink, run int, cr hwConnRun) {
 				if cr.connect {
 					px = targets.NewProxy("proxy", cr.cssl, tgt.Addr(), 200, rec)
 					gm["type"], gm["target"], gm["connect-ssl"] = "connect", px.Addr(), cr.cssl
+				}
+				if cr.http2 {
+					gm["type"] = "http2"
 				}
 				if cr.shared > 0 {
 					gm["shared-client"] = map[string]interface{}{"enabled": true, "client-number": cr.shared}
@@ -1123,7 +1175,7 @@ func hwConnOne(w hwSink, run int, cr hwConnRun) {
 				tgt.Close()
 				_ = fs.Remove(path)
 				w.Emit(hwConnEv{Ev: "Run", Run: run, N: n, R: r, KeepAlive: ka, SSL: ssl, Insts: insts, Opts: cr.optNote, GapMs: int(cr.gap / time.Millisecond), IdleMs: cr.idleMs,
-					Gun: map[bool]string{false: "http", true: "connect"}[cr.connect], ConnectSSL: cr.cssl, Shared: cr.shared, Serial: cr.serial})
+					Gun: cr.gunName(), ConnectSSL: cr.cssl, Shared: cr.shared, Serial: cr.serial})
 				sort.SliceStable(shots, func(a, b int) bool { return shots[a].Inst < shots[b].Inst })
 				idx := map[string]int{}
 				for k, name := range insts {
@@ -1165,7 +1217,7 @@ func hwConnOne(w hwSink, run int, cr hwConnRun) {
 					}
 				}
 				w.Emit(hwConnEv{Ev: "End", Run: run, N: n, R: r, KeepAlive: ka, SSL: ssl, Tolerant: cr.opts != nil,
-					Gun: map[bool]string{false: "http", true: "connect"}[cr.connect], ConnectSSL: cr.cssl})
+					Gun: cr.gunName(), ConnectSSL: cr.cssl})
 			}
 		}
 	}
